@@ -43,14 +43,14 @@ def cases(rng, tier):
 
 
 def impl(c):
-    return H.replay(c)
+    return H.replay_all(c)
 
 
 def model_line(c):
     return {"cfg": c["cfg"], "ops": c["ops"]}
 
 
-def oracle(c, out):
+def oracle_core(c, out):
     v = []
     def bad(what, **sig):
         v.append((what, sig))
@@ -133,6 +133,9 @@ def oracle(c, out):
 
 def project(c, out):
     return out
+
+
+oracle = H.oracle_all(oracle_core)
 
 
 def classify(c, out):
